@@ -287,7 +287,17 @@ pub fn gen_packet(r: &mut Rng) -> Vec<u8> {
 /// hand-made boundary family: long pointer chains (15/16/17), maximal names (254/255/256), labels 63/64
 pub fn gen_boundary(r: &mut Rng) -> Vec<u8> {
     let mut p = vec![0u8, 1, 0x80, 0, 0, 1, 0, 1, 0, 0, 0, 0];
-    match r.below(4) {
+    match r.below(5) {
+        4 => {
+            // two OPT records in the additional section: the first with or without options, the second empty
+            p.extend_from_slice(&[1, b'q', 0]); put16(&mut p, 1); put16(&mut p, 1);
+            p[2] = if r.chance(1, 2) { 0x80 } else { 0 };
+            let with_options = r.chance(1, 2);
+            p.push(0); put16(&mut p, 41); put16(&mut p, 1232); put32(&mut p, 0);
+            if with_options { put16(&mut p, 8); p.extend_from_slice(&[0, 10, 0, 4, 1, 2, 3, 4]); } else { put16(&mut p, 0); }
+            p.push(0); put16(&mut p, 41); put16(&mut p, 1232); put32(&mut p, 0); put16(&mut p, 0);
+            p[7] = 0; p[11] = 2;
+        }
         3 => {
             // a DNAME record whose pointer-free target has total wire length n around the 255-byte limit
             let n = 253 + r.below(5) as usize;
